@@ -112,6 +112,7 @@ def run_case(case):
         return out, 'spurious'
     (endo, exo, par, err), lags, leads = ref[1], ref[2], ref[3]
     has_label = any(isinstance(m[2], str) for _, rhs in prog for m in rhs)
+    solved_for = set()
     for opt in (OPTION_LATTICE if case.get('full_options') else OPTION_SMALL):
         Model = fsic.build_model(symbols, **opt)
         obs = (list(Model.ENDOGENOUS), list(Model.EXOGENOUS), list(Model.PARAMETERS), list(Model.ERRORS))
@@ -129,7 +130,8 @@ def run_case(case):
         if Model.LAGS not in want_lags or Model.LEADS not in want_leads:
             out.append(('lags-leads', [sorted(want_lags), sorted(want_leads)], [Model.LAGS, Model.LEADS], 'LAGS/LEADS for %s with %r' % (script, opt)))
             break
-        if not has_label and Model.LAGS >= lags and Model.LEADS >= leads:
+        if not has_label and Model.LAGS >= lags and Model.LEADS >= leads and (Model.LAGS, Model.LEADS) not in solved_for:
+            solved_for.add((Model.LAGS, Model.LEADS))  # the default range depends on the option set only through LAGS/LEADS
             # spans too short to contain any feasible period: the default range is empty (nothing to solve, nothing raised)
             for n in range(max(Model.LAGS, Model.LEADS) + 1, Model.LAGS + Model.LEADS + 1):  # both default bounds exist, in reversed order
                 m = Model(range(50, 50 + n))
